@@ -1,20 +1,22 @@
 #!/bin/bash
-# usage: verify_seed.sh <ID> <k>      e.g. verify_seed.sh C01 1
+# usage: verify_seed.sh <ID> <k> [srcdir]     e.g. verify_seed.sh C01 1     (srcdir default /tmp/seed/<ID>/m<k>)
 # Confirms a sub-agent's seeded change in a scratch worktree of /repo: compiles, the 60 stable tests pass,
 # its demonstration passes without and fails with the change. On success copies it to /verif/seeded/<ID>-m<k>/.
-ID=$1; K=$2; SRC=/tmp/seed/$ID/m$K
+ID=$1; K=$2; SRC=${3:-/tmp/seed/$ID/m$K}
 export GOFLAGS=-mod=mod GOPROXY=off GOSUMDB=off GOTOOLCHAIN=local; unset GOWORK
 [ -f $SRC/patch.diff ] || { echo "no patch in $SRC"; exit 2; }
 DEMO=$(ls $SRC/*_test.go 2>/dev/null | head -1)
 [ -n "$DEMO" ] || { echo "no demo test in $SRC"; exit 2; }
 PKG=$(grep -m1 '^package ' $DEMO | awk '{print $2}')
 case $PKG in scipipe) DIR=.;; components) DIR=components;; main) DIR=cmd/scipipe;; *) echo "unknown package $PKG"; exit 2;; esac
-RACE=""; grep -q -- "-race" $DEMO && RACE="-race"
+RACE=""; grep -q -- "-race\|go:build race" $DEMO && RACE="-race"
 WT=$(mktemp -d /tmp/vseed.XXXXXX); rmdir $WT
 git -C /repo worktree add -q --detach $WT HEAD || exit 2
 trap 'git -C /repo worktree remove --force '$WT' 2>/dev/null; rm -rf '$WT EXIT
 cd $WT; mkdir -p .tmp
 PAT="${ID}_?M${K}"
+# demos that do not follow the <ID>_M<k> naming: run exactly the tests the demo file defines
+grep -qiE "func Test[A-Za-z0-9_]*${ID}_?M${K}" $DEMO || PAT="^($(grep -oE '^func Test[A-Za-z0-9_]+' $DEMO | sed 's/func //' | tr '\n' '|' | sed 's/|$//'))\$"
 run_demo() { cp $DEMO $WT/$DIR/zz_seed_demo_test.go; (cd $WT/$DIR && timeout 600 go test -vet=off -count=1 $RACE -run "(?i)$PAT" -timeout 500s . > $WT/demo.out 2>&1); rc=$?; rm -f $WT/$DIR/zz_seed_demo_test.go; return $rc; }
 run_demo; WITHOUT=$?
 grep -q "no tests to run" $WT/demo.out && { echo "$ID m$K: demo pattern $PAT matched no test"; exit 2; }
